@@ -656,15 +656,17 @@ func (w *World) checkNodeStatus(cur *networkv1beta1.Node) {
 		if len(b.v4) == 1 && len(b.v6) == 1 && b.e4[0] != b.e6[0] {
 			w.run.Violate("C02", "binding-shape", "dual-stack-binding-on-two-interfaces", "pod %s has %s on %s and %s on %s", podID, b.v4[0], b.e4[0], b.v6[0], b.e6[0])
 		}
-		// a pod that reports an address is bound to exactly that address or to nothing
-		if p := w.podByID(podID); p != nil && p.exists {
+		// a pod that already reported an address when this pass began (and still does) is bound
+		// by this pass to exactly that address or to nothing
+		if p := w.podByID(podID); p != nil && p.exists && w.passStartUID[p.spec.Name] == p.uid {
 			if pod := w.truthPod(p.spec.Name); pod != nil {
 				rep4, rep6 := reported(pod)
-				if rep4 != "" && len(b.v4) == 1 && b.v4[0] != rep4 {
-					w.run.Violate("C02", "adoption", "pod-bound-to-other-than-reported-address", "pod %s reports %s but is bound to %s", podID, rep4, b.v4[0])
+				was := w.passStartRep[p.spec.Name]
+				if rep4 != "" && was[0] == rep4 && len(b.v4) == 1 && b.v4[0] != rep4 && prev[b.v4[0]].ip != nil && prev[b.v4[0]].ip.PodID != podID {
+					w.run.Violate("C02", "adoption", "pod-bound-to-other-than-reported-address", "pod %s reports %s and this pass bound it to %s", podID, rep4, b.v4[0])
 				}
-				if rep6 != "" && len(b.v6) == 1 && b.v6[0] != rep6 {
-					w.run.Violate("C02", "adoption", "pod-bound-to-other-than-reported-address", "pod %s reports %s but is bound to %s", podID, rep6, b.v6[0])
+				if rep6 != "" && was[1] == rep6 && len(b.v6) == 1 && b.v6[0] != rep6 && prev[b.v6[0]].ip != nil && prev[b.v6[0]].ip.PodID != podID {
+					w.run.Violate("C02", "adoption", "pod-bound-to-other-than-reported-address", "pod %s reports %s and this pass bound it to %s", podID, rep6, b.v6[0])
 				}
 			}
 		}
